@@ -48,7 +48,7 @@ type twin struct {
 
 // accept records an operation the twin's shadow took.
 func (t *twin) accept(op Op) {
-	t.accept(op)
+	t.good = append(t.good, op)
 	t.offer = append(t.offer, op)
 }
 
@@ -589,12 +589,14 @@ func runGo(h History) GoRes {
 		}
 		st := diffs[0]
 		sr.BatchDiff, sr.Batch, sr.TreeDiff, sr.GetDiff, sr.ShadowDiff, sr.FreshLoadDiff = st.batch, st.batchDump, st.tree, st.get, st.shadow, st.freshLoad
-		for _, f := range st.findings {
-			add(f)
-		}
+		sr.Findings = st.findings
 		if len(twins) > 1 {
 			if sr.DocDiff = diffs[1].first(); sr.DocDiff != "" {
 				res.DocDiffs++
+			} else if st.first() != "" && res.DocSideEffects > 0 {
+				// differs from the strict twin, and is in every compared respect what the
+				// documented-side-effect twin shows in this step: D18-P1
+				sr.DocExplains = true
 			}
 		}
 		res.Steps = append(res.Steps, sr)
